@@ -4,13 +4,13 @@ from evalutil import *
 
 ID = "C05"
 LEVEL = "proof"
-MODULES = ["H3Proofs.Props.C05", "H3Proofs.Props.C05Neighbor", "H3Proofs.Props.C05Bfs"]
+MODULES = ["H3Proofs.Props.C05", "H3Proofs.Props.C05Neighbor", "H3Proofs.Props.C05Bfs", "H3Proofs.Props.C05Symm"]
 THEOREMS = "auto"
 ASSUMPTIONS = ["hand-written model of h3NeighborRotations, _gridDiskDistancesInternal (array-faithful), the unsafe "
                "ring walks, gridRingUnsafe and areNeighborCells, tied to the code by exact correspondence (slot "
                "layout and ring order included)"]
-NOT_PROVED = ["traversal inside/next to the 12 pentagon base cells beyond finite families (empirical rotation tables)"]
-EXPLANATION = ("size formula / validation / base-cell table theorems + (growing) digit-table theory; correspondence of "
+NOT_PROVED = ["traversal inside/next to the 12 pentagon base cells and across base-cell boundaries (empirical rotation tables): symmetry / distinctness of neighbours are theorems for steps that stay inside a hexagon base cell, at every resolution (C05Symm), and are exercised by correspondence + evaluator elsewhere", "the array-faithful safe disk (open addressing) equals the association-list disk of the BFS theorem: both compared with C"]
+EXPLANATION = ("size formula / validation / base-cell table theorems; Theorem A (digit tables = aperture-7 addition), uniqueness of digit expansions, symmetric and pairwise distinct neighbours inside hexagon base cells at every resolution; the safe disk algorithm is BFS for any neighbour function; correspondence of "
                "all seven disk/ring functions; the evaluator checks gridDisk k against a breadth-first search over "
                "the library's own k=1 disks, symmetry, areNeighborCells, and unsafe = safe-or-error")
 
